@@ -31,6 +31,10 @@ func verifOnLock() {
 		verifOnLockDone()
 		return
 	}
+	if verifRRArmed {
+		verifOnLockRR()
+		return
+	}
 	if !verifGrowArmed || verifGrowBudget == 0 {
 		return
 	}
@@ -73,6 +77,12 @@ func verifRLock(mu *sync.RWMutex) {
 	if verifGmeArmed && mu == &verifGme.mu {
 		verifGmeLocks++
 		if verifGmeLocks >= 2 {
+			verifOnLock()
+		}
+	}
+	if verifRRArmed && mu == &verifRRWorld.gb.mu {
+		verifRRRLocks++
+		if verifRRRLocks >= 2 {
 			verifOnLock()
 		}
 	}
